@@ -91,6 +91,20 @@ func genEscape(t *rapid.T, label string) string {
 	}
 	sep := rapid.SampledFrom([]string{"/", "/", "/", "//", "\\"}).Draw(t, label+"_sep")
 	s := strings.Join(segs, sep)
+	// neutral padding ("x/../" cancels out) in front of the escaping part, so that the whole
+	// string crosses the protocol's length limits (1024 bytes for a rel_path, 64 KiB for a
+	// 16-bit length prefix) while still naming the same place
+	if rapid.IntRange(0, 4).Draw(t, label+"_pad") == 0 {
+		target := rapid.SampledFrom([]int{1000, 1030, 2000, 5000, 70000}).Draw(t, label+"_padlen")
+		unit := rapid.SampledFrom([]string{"x/../", "sub/../", "./", "é/../"}).Draw(t, label+"_padunit")
+		if n := (target - len(s)) / len(unit); n > 0 {
+			if rapid.Bool().Draw(t, label+"_padfront") {
+				s = strings.Repeat(unit, n) + s
+			} else {
+				s = "sub/" + strings.Repeat(unit, n) + "../" + s
+			}
+		}
+	}
 	if rapid.IntRange(0, 5).Draw(t, label+"_abs") == 0 {
 		s = "/" + s
 	}
